@@ -107,4 +107,16 @@ TEXT["C20"] = dict(
   note=("PARTIAL: the proof covers the decision table only; argument parsing and output formatting are observed. One "
         "defect repaired (mpq validate exited 0 after reporting failure)."),
   technique="Lean 4 proof (decision table) + differential run of the CLI binary against the library and the model")
+TEXT["C19"] = dict(
+  text=("Machine-checked Lean 4 theorems over a model of the three handle tables with ARBITRARY handle values: after every "
+        "call sequence ids stay below one strictly increasing counter (never reused), positions stay within the file, "
+        "every file and search handle belongs to a live archive; a read returns min(requested, remaining); invalid handles "
+        "are errors and no-ops; closing an archive removes exactly its own file and search handles; and the lock "
+        "acquisition graph re-extracted from the source on every run is acyclic (kernel-decided). Tied to the code by "
+        "stateful differential execution of call histories with live/stale/null/forged handles and canary-fenced buffers, "
+        "agreement of bytes/sizes/existence with the Rust API, and multi-threaded stress under a watchdog."),
+  note=("PARTIAL: unsafe pointer writes and thread interleavings are observed, not proved; lock graph is lexical. Three "
+        "defects repaired (search handles survived SFileCloseArchive; names > MAX_PATH overran caller buffers; "
+        "SFileVerifyArchive self-deadlocked)."),
+  technique="Lean 4 proof (invariant by induction over call sequences, kernel-decided lock-graph acyclicity) + stateful differential correspondence + watchdog stress")
 NA = {}
